@@ -235,7 +235,7 @@ const c38Rule = "programs are produced by a seeded random generator of terminati
 	"(2) every float64 arithmetic/comparison has at least one non-constant operand (classic folds untyped constants as typed values, Go exactly); no float->int conversion; " +
 	"(3) shift counts are constants 0..8 or (e & 7) (classic has no negative-shift panic); a constant shifted by a variable count is wrapped in a call; " +
 	"(4) struct field names are exported (reflect.StructOf), no embedded fields, tags, recursive or anonymous struct types, no elided types in composite literals; " +
-	"(5) no pointers, methods, interfaces (other than the interface{} holding recover()'s result and rec's arguments), channels, goroutines, arrays, type switches, goto, labelled statements (classic hangs on them: finding C38-labeled-stmt-hang, not observable without a wall-clock verdict); " +
+	"(5) no pointers, methods, interfaces (other than the interface{} holding recover()'s result and rec's arguments), channels, goroutines, arrays, type switches, goto, labelled statements (classic used to hang on them, fixed finding C38-labeled-stmt-hang; its break/continue still ignore the label); " +
 	"(6) no named results; (7) user-function calls appear only at the root of a statement's expression with call-free arguments and are never assigned to indexed places (Go leaves the order of calls vs. operand reads and panics unspecified); " +
 	"(8) run-time panic classes divide/bounds/nil-map are merged (two panicking operations of one statement may be evaluated in either order); parallel assignments have no indexed places; " +
 	"(9) map iteration bodies only accumulate commutatively; (10) package-level initialisers are literals; (11) make() lengths are constants or (e & 7); " +
